@@ -25,6 +25,9 @@ def run(ctx, chk):
              floor=2)
     chk.rule('C09.2', 'D', 'every completing path of each step function delivers exactly once: clocks = 4 x the value '
              'returned by get_consumed_cycles (unbroken def-use), before handle_interrupt', floor=3)
+    chk.rule('C09.3', 'D', 'interrupt dispatch accounting: every path of handle_interrupt that pushes PC or redirects it '
+             'adds exactly 5 machine cycles to Registers.cycles (delivered with the next step); every other path adds none',
+             floor=8)
     chk.rule('C09.4', 'D', 'fan-out: MemoryAreas::run_clock_cycles hands the same clock count to IO::run_clock_cycles, '
              'which hands it to the timer and the LCD controller, each exactly once on every path', floor=2)
     chk.rule('C09.5', 'D', 'device tick functions are called only through that chain', floor=4)
@@ -38,6 +41,7 @@ def run(ctx, chk):
         if not need(chk, prog, [GCC, MRC, IRC, TRC, VRC, HI, TCC, CORE + 'update', CORE + 'run_code_block', CORE + 'run_interp']):
             continue
         file = 'src/emulator.rs'
+        dispatch_accounting(chk, cfg, facts, file)
         if cfg == 'default':
             ip = absint.Interp(facts, trust_asserts=('overflow',))
             st = ip.new_state()
@@ -240,3 +244,48 @@ def _collect(t, out):
             stack.extend(v for _, v in x[2])
             if x[1]:
                 stack.append(x[1])
+
+
+def dispatch_accounting(chk, cfg, facts, file):
+    from . import c07
+    from ..affine import diff_const
+    ip, rs, inv = c07.analyse(facts)
+    cyc0 = S(32, 'core.registers.cycles', ('field', 'cpu::Registers', 'cycles', 'u32'))
+    for i, r in enumerate(rs):
+        key = '%s:path%d' % (cfg, i)
+        if r.status != 'ok':
+            chk.fail('C09.3', key, 'handle_interrupt can diverge: %s %s' % (r.status, r.detail), file, None)
+            continue
+        st_ = c07.stores_of(r)
+        calls = [e for e in r.state.events if e[0] == 'call']
+        dispatch = bool(calls) or any(n in ('registers.ip', 'registers.sp') for n, _, _ in st_)
+        cyc = [v for n, v, _ in st_ if n == 'registers.cycles']
+        if cyc:
+            base = [t for t in _syms(cyc[-1]) if t[2].endswith('registers.cycles')]
+            delta = diff_const(cyc[-1], base[0], r.state.env, 32) if base else None
+        else:
+            delta = 0
+        want = 5 if dispatch else 0
+        if delta == want:
+            chk.ok('C09.3', key, nontrivial=dispatch, sample={'path': key, 'dispatch': dispatch, 'cycles_added': delta}
+                   if dispatch and i % 3 == 0 else None)
+        else:
+            line = None
+            for e in r.state.events:
+                if e[0] == 'store' and e[1] == 'core' and e[2][-1][1] == 'ip':
+                    line = e[4][1]
+            chk.fail('C09.3', key, 'a handle_interrupt path that %s adds %s machine cycles to Registers.cycles, expected %d '
+                     '(the devices would %s the CPU)' % ('dispatches (pushes PC / sets PC)' if dispatch else 'does not dispatch',
+                                                           delta, want, 'fall behind' if (delta or 0) < want else 'run ahead of'),
+                     file, line)
+
+
+def _syms(t, out=None):
+    out = [] if out is None else out
+    if t[0] == 's':
+        out.append(t)
+    elif t[0] == 'o':
+        for a in t[3:]:
+            if isinstance(a, tuple):
+                _syms(a, out)
+    return out
